@@ -23,12 +23,12 @@ type Node struct {
 	Ext      string
 	Aliases  []string
 	AliasPos []token.Pos
-	AliasOK  bool         // every alias was a constant
-	DetExpr  ast.Expr     // detector argument
-	DetObj   types.Object // *types.Func or *types.Var of package magic; nil for a func literal
+	AliasOK  bool          // every alias was a constant
+	DetExpr  ast.Expr      // detector argument
+	DetObj   types.Object  // *types.Func or *types.Var of package magic; nil for a func literal
 	DetFn    *ssa.Function // body that runs: the function itself, or the closure a constructor returned
-	DetCtor  *ssa.Call    // for detector variables: the constructing call in magic's init (prefix/offset/...)
-	DetBind  []ssa.Value  // for detector variables: closure bindings
+	DetCtor  *ssa.Call     // for detector variables: the constructing call in magic's init (prefix/offset/...)
+	DetBind  []ssa.Value   // for detector variables: closure bindings
 	Children []*Node
 	ChildPos []token.Pos
 	Parents  []*Node // every node listing this one as a child (well-formed: exactly one, root/sentinel none)
@@ -38,17 +38,17 @@ type Node struct {
 
 // Model is the extracted tree.
 type Model struct {
-	Type     *types.Named   // the MIME struct
-	Ctor     *types.Func    // newMIME
-	AliasM   *types.Func    // (*MIME).alias
-	Nodes    []*Node        // in declaration order of position
+	Type     *types.Named // the MIME struct
+	Ctor     *types.Func  // newMIME
+	AliasM   *types.Func  // (*MIME).alias
+	Nodes    []*Node      // in declaration order of position
 	ByVar    map[*types.Var]*Node
 	Root     *Node
-	Sentinel *Node // errMIME: octet-stream, no children, no parent
+	Sentinel *Node          // errMIME: octet-stream, no children, no parent
 	Fields   map[string]int // field name -> index (mime, aliases, extension, detector, children, parent)
 	// Field roles found semantically
 	FMime, FAliases, FExt, FDet, FChildren, FParent int
-	Problems []string // initialisers of *MIME variables that are not of the recognised shape
+	Problems                                        []string // initialisers of *MIME variables that are not of the recognised shape
 }
 
 // Get returns the memoised model for c.
